@@ -486,7 +486,11 @@ VariablesStack::findEntry(
         }
     }
 
-    if(theEntryIndex == m_stack.size() && fIsParam == false && true == fSearchGlobalSpace && m_globalStackFrameIndex > 1)
+    // While the top-level parameters are resolved, no global stack frame has been
+    // marked and no variable has been pushed yet: m_globalStackFrameIndex still
+    // is ~0u, and there is nothing to search.
+    if(theEntryIndex == m_stack.size() && fIsParam == false && true == fSearchGlobalSpace &&
+       m_globalStackFrameIndex > 1 && m_globalStackFrameIndex <= m_stack.size())
     {
         // Look in the global space
         for(size_type i = m_globalStackFrameIndex - 1; i > 0; i--)
